@@ -7,17 +7,53 @@ META = {
     "level": "model_checking",
     "technique": "TLA+ contract of ethdb.KeyValueStore (KV.tla) model-checked with TLC; every TLC transition replayed on memorydb, pebble, leveldb and rawdb.NewTable views; recorded random call sequences on all six validated against KVTrace.tla",
     "text": "KV.tla is the interface contract (ordered map, half-open DeleteRange with nil/empty bounds, batch buffering with atomic in-order Write, Reset, Replay, ValueSize, snapshot iterators with prefix/start, reopen). TLC checks the contract's own properties (range semantics, buffering invisible, iterator snapshot stability, exact ValueSize) exhaustively on small key universes, then prints every transition of the reachable graph; the driver establishes each from-state on the real store through its public API, executes the action and compares the result and the complete observable post-state (full iteration, batch content via Replay into a recorder, ValueSize, remaining iterator items, untouched foreign keys below a table view). Equality of the backends follows because each equals the same specification. Long seeded random call sequences (keys over {00,61,62,ff}^<=3, nil/empty bounds, iterators held across writes, close/reopen) are recorded per target and TLC checks each trace is a behaviour of the specification.",
-    "note": "Three deviations of the pinned tree from the contract are modelled as what the code does by the constants QEmptyDel (memorydb), QEager (leveldb), QReplayRange (rawdb table) of KV.tla, so those targets stay bound to an exact specification; replaying the pure contract on them reproduces the deviations, which are reported as PENDING-FINDING C23-F1..F3 (spec/store/NOTES.md) and not as violations. A fourth one cannot be modelled as a transition: leveldb's batch.DeleteRange with start > end panics inside goleveldb once tables exist below level 0 (C23-F4); the drivers do not issue that call on leveldb targets (the contract's outcome, nothing buffered, is still checked) and a directed step reproduces the panic in a child process. Batch atomicity is decided for the sequential interface (nothing visible before Write, everything after); power-failure atomicity of the disk backends' WAL is not exercised. Trusts TLC and the projection in harness/cmd/c23.",
+    "note": "Three deviations of the pinned tree from the contract are modelled as what the code does by the constants QEmptyDel (memorydb), QEager (leveldb), QReplayRange (rawdb table) of KV.tla, so those targets stay bound to an exact specification; replaying the pure contract on them reproduces the deviations, which are reported through known_findings (C23-F1..F3, spec/store/NOTES.md); a start-up probe decides per run which constants apply, so a fixed tree is bound to the pure contract. A fourth one cannot be modelled as a transition: leveldb's batch.DeleteRange with start > end panics inside goleveldb once tables exist below level 0 (C23-F4); the drivers do not issue that call on leveldb targets (the contract's outcome, nothing buffered, is still checked) and a directed step reproduces the panic in a child process. Batch atomicity is decided for the sequential interface (nothing visible before Write, everything after); power-failure atomicity of the disk backends' WAL is not exercised. Trusts TLC and the projection in harness/cmd/c23.",
     "design_ref": "3.4 C23",
 }
 
-# which targets are described by which constant assignment of KV.tla
-VARIANTS = [("", ["pebble"]), ("EmptyDel", ["mem"]), ("Eager", ["leveldb", "tleveldb"]), ("ReplayRange", ["tmem", "tpebble"])]
+# deviation constants of KV.tla -> cfg suffix / driver name
+SUFFIX = {"ideal": "", "emptydel": "EmptyDel", "eager": "Eager", "replayrange": "ReplayRange"}
+FINDINGS = {
+    "C23-F1": "memorydb batch.Delete(empty key) is buffered as DeleteRange(nil,nil): Write/Replay wipe the database",
+    "C23-F2": "leveldb batch.DeleteRange is expanded when it is issued, not when the batch is written",
+    "C23-F3": "rawdb table batch cannot Replay a range deletion (tableReplayer has no DeleteRange)",
+    "C23-F4": "leveldb batch.DeleteRange(start > end) panics inside goleveldb once tables exist below level 0",
+}
 T = 3600
+
+
+def known(ctx, fid, detail, replay):
+    """A recognised deviation is tolerated only while known_findings.json lists it as open."""
+    if not ctx.known_finding(fid, detail):
+        ctx.violation("%s %s (%s) - not listed as an open known finding" % (fid, FINDINGS[fid], detail),
+                      dict(replay, kind="finding", finding=fid, seed=ctx.seed, tier=ctx.tier))
 
 
 def run(ctx):
     drv = ctx.build("c23")
+    # which of the known deviations does this tree have?  (a fixed tree has none and every target is bound to the contract)
+    pr, _ = ctx.drive(drv, ["-mode", "probe", "-dir", os.path.join(ctx.scratch, "db-probe")], name="c23-probe", timeout=T)
+    dev = {k: bool(pr.get("extra", {}).get(k)) for k in ("f1", "f2", "f3")}
+    s4, _ = ctx.drive(drv, ["-mode", "f4", "-dir", os.path.join(ctx.scratch, "db-f4")], name="c23-finding-F4", timeout=T)
+    dev["f4"] = str(s4.get("extra", {}).get("f4", "")).startswith("panic")
+    if dev["f1"]:
+        known(ctx, "C23-F1", "probe: Put a; batch.Delete(empty); Write -> a is gone", {"probe": pr.get("extra")})
+    if dev["f2"]:
+        known(ctx, "C23-F2", "probe: batch Put k; DeleteRange[k,nil); Write -> k is still there", {"probe": pr.get("extra")})
+    if dev["f3"]:
+        known(ctx, "C23-F3", "probe: table batch DeleteRange(a,b); Replay -> error", {"probe": pr.get("extra")})
+    if dev["f4"]:
+        known(ctx, "C23-F4", "3 puts, Compact, NewBatch().DeleteRange(d,a): %s" % s4["extra"]["f4"], {"f4": s4.get("extra")})
+    view = "replayrange" if dev["f3"] else "ideal"
+    assign = {"pebble": "ideal", "mem": "emptydel" if dev["f1"] else "ideal",
+              "leveldb": "eager" if dev["f2"] else "ideal", "tleveldb": "eager" if dev["f2"] else view,
+              "tmem": view, "tpebble": view}
+    variants = []
+    for v in ("ideal", "emptydel", "eager", "replayrange"):
+        ts = [t for t in ("pebble", "mem", "leveldb", "tleveldb", "tmem", "tpebble") if assign[t] == v]
+        if ts:
+            variants.append((v, ts))
+    skip = ["-skip-f4"] if dev["f4"] else []
     # MC: the contract's own properties on the larger universes
     ctx.model_check("store/MCKV", "store/MCKV" if not ctx.thorough else "store/MCKVThorough", timeout=T, name="MCKV",
                     coverage=ctx.thorough, workers=4)
@@ -26,59 +62,55 @@ def run(ctx):
     # R: every transition of the graph of each variant on the targets it describes
     suffix = "T" if ctx.thorough else ""
     contract_edges = None
-    for var, targets in VARIANTS:
-        res = ctx.model_check("store/MCKV", "store/MCKVEdges%s%s" % (var, suffix), tags=("EDGE",), timeout=T,
-                              name="MCKVEdges" + var, workers=4)
+    for v, targets in variants:
+        res = ctx.model_check("store/MCKV", "store/MCKVEdges%s%s" % (SUFFIX[v], suffix), tags=("EDGE",), timeout=T,
+                              name="MCKVEdges" + SUFFIX[v], workers=4)
         edges = parse_edges(res)
         if not edges:
-            raise InfraError("no edges emitted for variant %r" % var)
-        ep = os.path.join(ctx.scratch, "edges%s.ndjson" % var)
+            raise InfraError("no edges emitted for variant %r" % v)
+        ep = os.path.join(ctx.scratch, "edges-%s.ndjson" % v)
         write_ndjson(ep, edges)
-        if var == "":
+        if v == "ideal":
             contract_edges = ep
-        ctx.drive(drv, ["-mode", "edges", "-in", ep, "-targets", ",".join(targets), "-dir", os.path.join(ctx.scratch, "db-" + (var or "ideal"))],
-                  name="c23-edges-" + (var or "contract"), timeout=T)
-    # the pure contract replayed on the deviating targets: only the known deviations may show up
-    pend_targets = "mem,tmem" + (",tpebble,leveldb,tleveldb" if ctx.thorough else "")
-    s, _ = ctx.drive(drv, ["-mode", "edges", "-pending", "-in", contract_edges, "-targets", pend_targets,
-                           "-dir", os.path.join(ctx.scratch, "db-pending")], name="c23-contract-on-deviating", timeout=T)
-    for f, n in sorted((s.get("extra", {}).get("pending_findings") or {}).items()):
-        line = "PENDING-FINDING: property=C23 %s (%d contract transitions diverge)" % (f, n)
-        print(line)
-        ctx.notes.append(line)
-    # TODO-KNOWN-FINDING (C23-F4): leveldb batch.DeleteRange(start > end) panics inside goleveldb once tables exist
-    # below level 0; the drivers do not issue that one call on leveldb targets (counted below) and this step
-    # reproduces the panic in a child process
-    s4, _ = ctx.drive(drv, ["-mode", "f4", "-dir", os.path.join(ctx.scratch, "db-f4")], name="c23-finding-F4", timeout=T)
-    if str(s4.get("extra", {}).get("f4", "")).startswith("panic"):
-        line = "PENDING-FINDING: property=C23 C23-F4 leveldb batch.DeleteRange with start > end panics in goleveldb (%s); other backends and the contract: empty range" % s4["extra"]["f4"]
-        print(line)
-        ctx.notes.append(line)
-    else:
-        ctx.notes.append("C23-F4 not reproduced")
+        ctx.drive(drv, ["-mode", "edges", "-in", ep, "-variant", v, "-targets", ",".join(targets),
+                        "-dir", os.path.join(ctx.scratch, "db-" + v)] + skip, name="c23-edges-" + v, timeout=T)
+    if ctx.thorough:
+        # the 0xff universe (prefix upper bounds) on the contract targets
+        res = ctx.model_check("store/MCKV", "store/MCKVEdgesFF", tags=("EDGE",), timeout=T, name="MCKVEdgesFF", workers=4)
+        ep = os.path.join(ctx.scratch, "edges-ff.ndjson")
+        write_ndjson(ep, parse_edges(res))
+        ctx.drive(drv, ["-mode", "edges", "-in", ep, "-variant", "ideal", "-targets", ",".join(variants[0][1]),
+                        "-dir", os.path.join(ctx.scratch, "db-ff")] + skip, name="c23-edges-ff", timeout=T)
+    # the pure contract replayed on the deviating targets: nothing but the known deviations may show up
+    deviating = [t for t in ("mem", "tmem") + (("tpebble", "leveldb", "tleveldb") if ctx.thorough else ()) if assign[t] != "ideal"]
+    if deviating and contract_edges:
+        s, _ = ctx.drive(drv, ["-mode", "edges", "-pending", "-variant", "ideal", "-in", contract_edges, "-targets", ",".join(deviating),
+                               "-dir", os.path.join(ctx.scratch, "db-pending")] + skip, name="c23-contract-on-deviating", timeout=T)
+        for f, n in sorted((s.get("extra", {}).get("pending_findings") or {}).items()):
+            ctx.notes.append("contract transitions diverging on deviating targets: %s: %d" % (f, n))
     # V: recorded random call sequences per target, validated with the constants of that target
     prefix = os.path.join(ctx.scratch, "tr")
-    alltargets = [t for _, ts in VARIANTS for t in ts]
-    s, _ = ctx.drive(drv, ["-mode", "record", "-trace-prefix", prefix, "-targets", ",".join(alltargets),
-                           "-n", ctx.pick(4, 30), "-steps", ctx.pick(400, 1000), "-dir", os.path.join(ctx.scratch, "db-rec")],
-                     name="c23-record", timeout=T)
+    alltargets = [t for _, ts in variants for t in ts]
     ntr = ctx.pick(4, 30)
-    for var, targets in VARIANTS:
+    s, _ = ctx.drive(drv, ["-mode", "record", "-trace-prefix", prefix, "-targets", ",".join(alltargets),
+                           "-n", ntr, "-steps", ctx.pick(400, 1000), "-dir", os.path.join(ctx.scratch, "db-rec")] + skip,
+                     name="c23-record", timeout=T)
+    for v, targets in variants:
         # traces of the targets sharing one constant assignment are concatenated (each starts with a reset event)
-        tp = "%s-var-%s.ndjson" % (prefix, var or "contract")
+        tp = "%s-var-%s.ndjson" % (prefix, v)
         if not all(os.path.exists("%s-%s.ndjson" % (prefix, t)) for t in targets):
             continue      # the recording driver died (already reported as a violation by ctx.drive)
         with open(tp, "w") as out:
             for t in targets:
                 out.write(open("%s-%s.ndjson" % (prefix, t)).read())
-        ok, consumed, total, r = ctx.validate("store/KVTrace", tp, cfg="store/KVTrace" + var, ntraces=ntr * len(targets), timeout=T,
+        ok, consumed, total, r = ctx.validate("store/KVTrace", tp, cfg="store/KVTrace" + SUFFIX[v], ntraces=ntr * len(targets), timeout=T,
                                               name="KVTrace-" + "+".join(targets))
         if not ok:
-            ctx.reject_trace("store/KVTrace", tp, consumed, r, cfg="store/KVTrace" + var,
-                             desc="[%s] recorded trace rejected by KVTrace (%s) at event %d" % ("+".join(targets), var or "contract", consumed + 1))
+            ctx.reject_trace("store/KVTrace", tp, consumed, r, cfg="store/KVTrace" + SUFFIX[v],
+                             desc="[%s] recorded trace rejected by KVTrace (%s) at event %d" % ("+".join(targets), v, consumed + 1))
     return ctx.finish(rule="MC: all call sequences over the cfg universes; R: all graph edges on all six targets; V: random sequences per target",
                       assumptions=["single batch and single iterator at a time (sequential interface use)",
                                    "a written batch is only Reset or Replayed (pebble forbids re-committing)",
                                    "Key()/Value() observed only after Next() returned true",
                                    "keys shorter than the 32-byte 0xff marker ethdb.MaximumKey",
-                                   "deviations C23-F1..F3 modelled by Q* constants and reported as pending findings; C23-F4 (panic) call not issued on leveldb targets"])
+                                   "deviations found by the start-up probe (C23-F1..F3) bind the target to KV.tla with the matching Q* constant and are tolerated only as open known findings; C23-F4 (panic): the call is not issued on leveldb targets"])
